@@ -342,6 +342,19 @@ def run(cx):
             "implemented module through lys_parse / ly_ctx_load_module / lys_set_implemented + random module sets (1-4 modules, imports, "
             "submodules, typedef/grouping/identity, augment/deviation, leafref/when/must/default, if-feature chains, alternative revisions) with "
             "random histories containing one designed failure")
+    # 0. corpus: minimised past disagreements (scripts as sent to both sides)
+    import os
+    from vlib import paths
+    from vlib.proto import hexs
+    cdir = os.path.join(paths.CORPUS, "ctx")
+    cl = []
+    for f in sorted(os.listdir(cdir)) if os.path.isdir(cdir) else []:
+        if f.endswith(".spec"):
+            spec = "".join(l for l in open(os.path.join(cdir, f)).read().splitlines(True) if not l.startswith("#"))
+            cl.append("c%d ctx history %s" % (len(cl), hexs(spec)))
+    if cl:
+        cx.differential("ctx", cl, HARNESS, canon=lambda r: ([r[0]] + [cc.strip_fnv(cc.strip_x(t)) for t in r[1:]]) if r[0] == "ok" else r,
+                        kind=lambda l, r: "corpus:" + r[0])
     # 1. witnesses of the known findings (corpus)
     ws = cc.witnesses()
     hs = []
